@@ -144,10 +144,14 @@ theorem chainOK_getLast {l : List Entry} (hl : ChainOK l) : l.getLast? = some En
 
 namespace Chains
 
-@[simp] theorem set_same (c : Chains) (k : Kind) (l : List Entry) : (c.set k l) k = l := by simp [set]
+@[simp] theorem set_same (c : Chains) (k : Kind) (l : List Entry) : (c.set k l) k = l := by
+  cases k <;> rfl
 
 theorem set_other (c : Chains) {k k' : Kind} (l : List Entry) (h : k' ≠ k) : (c.set k l) k' = c k' := by
-  simp [set, h]
+  cases k <;> cases k' <;> first | rfl | exact absurd rfl h
+
+@[simp] theorem fresh_get (k : Kind) : Chains.fresh k = [Entry.own] := by
+  cases k <;> rfl
 
 theorem unregister_some {c c' : Chains} {k : Kind} {h : Nat} (hu : c.unregister k h = some c') :
     Entry.h h ∈ c k ∧ c' = c.set k ((c k).erase (Entry.h h)) := by
@@ -250,7 +254,7 @@ theorem rwf_upd {r : Registry} (hr : RWF r) (p : Nat) (c : Chains) (hc : ∀ k, 
 theorem rwf_create {r : Registry} (hr : RWF r) (p : Nat) : RWF (r.create p) := by
   cases h : r p with
   | some c => rw [create_some h]; exact hr
-  | none => rw [create_none h]; exact rwf_upd hr p _ (fun _ => chainOK_fresh)
+  | none => rw [create_none h]; exact rwf_upd hr p _ (fun k => by rw [Chains.fresh_get]; exact chainOK_fresh)
 
 theorem rwf_register {r : Registry} (hr : RWF r) (p : Nat) (k : Kind) (h : Nat) : RWF (r.register p k h).1 := by
   cases hc : r p with
@@ -304,6 +308,23 @@ end Registry
 
 namespace DState
 
+theorem create_some {s : DState} {p : Nat} {c : Chains} (h : s.reg p = some c) : s.create p = s := by
+  simp [create, h]
+
+theorem create_none {s : DState} {p : Nat} (h : s.reg p = none) :
+    s.create p = { s with reg := s.reg.upd p Chains.fresh } := by
+  simp [create, h]
+
+theorem create_reg (s : DState) (p : Nat) : (s.create p).reg = s.reg.create p := by
+  cases h : s.reg p with
+  | some c => rw [create_some h, Registry.create_some h]
+  | none => rw [create_none h, Registry.create_none h]
+
+theorem create_regLog (s : DState) (p : Nat) : (s.create p).regLog = s.regLog := by
+  cases h : s.reg p with
+  | some c => rw [create_some h]
+  | none => rw [create_none h]
+
 @[simp] theorem bump_reg (s : DState) (c : Callee) : (s.bump c).reg = s.reg := rfl
 @[simp] theorem bump_regLog (s : DState) (c : Callee) : (s.bump c).regLog = s.regLog := rfl
 
@@ -340,8 +361,8 @@ theorem logInv_init : LogInv init := by
 
 theorem logInv_create {s : DState} (hs : LogInv s) (p : Nat) : LogInv (s.create p) := by
   intro q c k h hq hm
-  show (q, k, h) ∈ s.regLog
-  have hq' : (s.reg.create p) q = some c := hq
+  rw [create_regLog]
+  have hq' : (s.reg.create p) q = some c := by rw [← create_reg]; exact hq
   cases hr : s.reg p with
   | some c0 =>
     rw [Registry.create_some hr] at hq'
@@ -352,7 +373,7 @@ theorem logInv_create {s : DState} (hs : LogInv s) (p : Nat) : LogInv (s.create 
     · subst hqp
       rw [Registry.upd_same] at hq'
       cases hq'
-      simp [Chains.fresh] at hm
+      simp at hm
     · rw [Registry.upd_other _ _ hqp] at hq'
       exact hs q c k h hq' hm
 
@@ -516,7 +537,8 @@ theorem dinv_init : DInv DState.init := ⟨Registry.rwf_empty, DState.logInv_ini
 
 theorem step_dinv (beh : Beh) {s : DState} (hs : DInv s) (op : Op) : DInv (step beh s op).1 := by
   cases op with
-  | create p => exact ⟨Registry.rwf_create hs.wf p, DState.logInv_create hs.log p⟩
+  | create p => exact ⟨by show RWF (s.create p).reg; rw [DState.create_reg]; exact Registry.rwf_create hs.wf p,
+      DState.logInv_create hs.log p⟩
   | register p k h => exact ⟨Registry.rwf_register hs.wf p k h, DState.logInv_register hs.log p k h⟩
   | unregister p k h => exact ⟨Registry.rwf_unregister hs.wf p k h, DState.logInv_unregister hs.log p k h⟩
   | dispatch p k => exact ⟨dispatch_rwf beh hs.wf p k, dispatch_logInv beh hs.log p k⟩
@@ -529,7 +551,7 @@ theorem run_dinv (beh : Beh) {s : DState} (hs : DInv s) (ops : List Op) : DInv (
 theorem step_other (beh : Beh) (s : DState) (op : Op) {q : Nat} (hq : q ≠ op.inst) :
     (step beh s op).1.reg q = s.reg q := by
   cases op with
-  | create p => exact Registry.create_other _ hq
+  | create p => show (s.create p).reg q = s.reg q; rw [DState.create_reg]; exact Registry.create_other _ hq
   | register p k h => exact Registry.register_other _ k h hq
   | unregister p k h => exact Registry.unregister_other _ k h hq
   | dispatch p k => exact dispatch_other beh s k hq
@@ -590,7 +612,7 @@ theorem logFrom_dispatch {P : Nat → Prop} {p : Nat} (hp : P p) (beh : Beh) {s 
 theorem logFrom_step {P : Nat → Prop} (beh : Beh) {s : DState} (hs : LogFrom P s) (op : Op) (hp : P op.inst) :
     LogFrom P (step beh s op).1 := by
   cases op with
-  | create p => exact hs
+  | create p => intro x hx; exact hs x (by rw [← DState.create_regLog s p]; exact hx)
   | register p k h =>
     intro x hx
     simp only [step, DState.register] at hx
